@@ -60,6 +60,8 @@ def o_round(case):
             cls.append(f"len{edge}")
     if n >= 256:
         cls.append("len>=256")
+    if framing.frame_problem(p) is None:
+        cls.append("payload-is-a-valid-frame")
     return Res(nontrivial=n >= 256 or bool(case.get("ident")), classes=cls, evals=5)
 
 
@@ -76,6 +78,12 @@ def s_round(draw, tier):
             if target > len(p):
                 p = p + draw(st.binary(min_size=target - len(p), max_size=target - len(p)))
         return {"payload": p.hex(), "ident": c["ident"], "labelmsm": draw(st.sampled_from([1, 2]))}
+    if k == 5:
+        # a payload that is itself a valid frame / starts like one / contains sync-like content
+        from pv import streams
+
+        f = bytes.fromhex(draw(streams.syncy_frames())["b"])
+        return {"payload": f[3:-3].hex(), "labelmsm": 1, "syncy": True}
     p = draw(gen.unknown_payloads("mixed"))
     return {"payload": p.hex(), "labelmsm": 1}
 
@@ -89,5 +97,5 @@ def _short(c):
 
 
 SUBS = [
-    Sub("roundtrip", o_round, strategy=s_round, examples=(250, 5000), rule="length >= 256 or defined identity", need={"len255": 1, "len256": 1, "len1023": 1, "defined": 1, "unknown": 1}, sample=_short),
+    Sub("roundtrip", o_round, strategy=s_round, examples=(250, 5000), rule="length >= 256 or defined identity", need={"payload-is-a-valid-frame": 1, "len255": 1, "len256": 1, "len1023": 1, "defined": 1, "unknown": 1}, sample=_short),
 ]
